@@ -1,9 +1,15 @@
-HOOK_COMMITS = []
+HOOK_COMMITS = ["7d6eb498"]
 NOTES = "Machine-checked proof in Coq 8.16.1 over a hand-written executable model, tied to /repo by a correspondence run on every check (DESIGN.md)."
 
 ALL = ["C%02d" % i for i in range(1, 21)]
 
 CHECKS = [
+    {
+        "property_id": "C13",
+        "text": "Coq theorems over a project-scoped store model: integrity (another project's rows never change) and confidentiality (the response is a function of the caller's own project's rows: foreign id = nonexistent id) for every database, request and YorkieService handler program, plus credential-gate theorems for the three services. Real server: every procedure from the service descriptors x credentials x every subset of victim-owned id fields, with byte-level dump of the victim's tables, blind-verdict and no-leak oracles; verdicts judged by the model.",
+        "note": "Admin/Cluster handlers are covered by the gate theorems and by the engine's oracles only (PARTIAL). Error messages are not part of the observable.",
+        "technique": "Coq proof (non-interference over a free-monad handler model) + differential RPC matrix on the real server",
+    },
     {
         "property_id": "C12",
         "text": "Coq theorems on the protocol model for presenceless documents (nothing stored, nothing returned, for every request). Presence convergence is decided on the real system: random histories with presence edits, detach/re-attach, deactivation, snapshots, presenceless documents; oracle AllPresences equal on all replicas = attached actors; traffic replayed through the model.",
